@@ -899,6 +899,18 @@ func removeJobFromList(jobs []*PipelineJob, jobToRemove *PipelineJob) []*Pipelin
 	return jobs
 }
 
+// removeJobFromWaitList returns the wait list without the given job, keeping the order of the other jobs
+func removeJobFromWaitList(waitList []*PipelineJob, jobToRemove *PipelineJob) []*PipelineJob {
+	for index, job := range waitList {
+		if job == jobToRemove {
+			result := make([]*PipelineJob, 0, len(waitList)-1)
+			result = append(result, waitList[:index]...)
+			return append(result, waitList[index+1:]...)
+		}
+	}
+	return waitList
+}
+
 // determineIfJobShouldBeRemoved implements the retention period handling.
 func (r *PipelineRunner) determineIfJobShouldBeRemoved(index int, job *PipelineJob) (bool, string) {
 	pipelineDef, pipelineDefExists := r.defs.Pipelines[job.Pipeline]
@@ -960,6 +972,15 @@ func (r *PipelineRunner) cancelJobInternal(id uuid.UUID) error {
 
 	if job.Start == nil {
 		job.markAsCanceled()
+
+		// A canceled job must neither occupy a slot on the wait list nor block it with its pending start timer
+		if job.startTimer != nil {
+			job.startTimer.Stop()
+			job.startTimer = nil
+		}
+		r.waitListByPipeline[job.Pipeline] = removeJobFromWaitList(r.waitListByPipeline[job.Pipeline], job)
+		// Jobs behind the canceled job might be startable now
+		r.startJobsOnWaitList(job.Pipeline)
 
 		log.
 			WithField("component", "runner").
